@@ -116,6 +116,7 @@ struct FnDir {
     exit_: String,
     loops: BTreeMap<usize, String>,
     loop_iters: BTreeMap<usize, String>,
+    anchors: Vec<(String, String)>, // (substring of a printed statement line, text inserted after that line)
     line: usize,
 }
 
@@ -1016,6 +1017,26 @@ fn emit_fn(ctx: &mut Ctx, d: &FnDir, out: &mut String) {
             die(&format!("lost anchor: {} has {} loops but the contract names loop {}", d.path, stats.loops, k));
         }
     }
+    // in-body proof anchors: text inserted after the unique statement line containing the pattern
+    for (pat, txt) in &d.anchors {
+        let patp = pretty(TokenStream::from_str(pat).unwrap_or_else(|_| die("bad anchor pattern")), 0);
+        let patp = patp.trim();
+        let lines: Vec<&str> = body.lines().collect();
+        let hits: Vec<usize> = lines.iter().enumerate().filter(|(_, l)| l.contains(patp)).map(|(i, _)| i).collect();
+        if hits.len() != 1 {
+            die(&format!("lost anchor: in-body anchor `{}` matches {} statement lines in {} (must be 1)", patp, hits.len(), d.path));
+        }
+        let mut nb = String::new();
+        for (i, l) in lines.iter().enumerate() {
+            nb.push_str(l);
+            nb.push('\n');
+            if i == hits[0] {
+                nb.push_str(txt.trim_end());
+                nb.push('\n');
+            }
+        }
+        body = nb;
+    }
     // explicit token substitutions (each must match exactly once; listed in the report)
     let mut subs_done = vec![];
     for (k, v) in &d.opts {
@@ -1093,6 +1114,41 @@ fn emit_fn(ctx: &mut Ctx, d: &FnDir, out: &mut String) {
         d.opts.contains_key("novac"),
     );
     ctx.report.push(rep);
+}
+
+fn emit_implconst(ctx: &mut Ctx, file: &str, path: &str, spec: &str, out: &mut String) {
+    let (ty, name) = path.rsplit_once("::").unwrap_or_else(|| die("implconst needs Type::NAME"));
+    let (_, f) = ctx.load(file).clone();
+    let mut hit: Option<(syn::ImplItemConst, syn::Type)> = None;
+    for it in &f.items {
+        if let syn::Item::Impl(im) = it {
+            if im.trait_.is_none() && type_last_ident(&im.self_ty).as_deref() == Some(ty) {
+                for ii in &im.items {
+                    if let syn::ImplItem::Const(c) = ii {
+                        if c.ident == name {
+                            hit = Some((c.clone(), (*im.self_ty).clone()));
+                        }
+                    }
+                }
+            }
+        }
+    }
+    let (c, self_ty) = hit.unwrap_or_else(|| die(&format!("lost anchor: associated const {} not found in {}", path, file)));
+    let (id, cty, expr) = (&c.ident, &c.ty, &c.expr);
+    let _ = writeln!(out, "//vx-begin fn {}", path);
+    let _ = writeln!(out, "impl {} {{", pretty(self_ty.to_token_stream(), 0).trim());
+    let _ = writeln!(out, "    {}", pretty(quote!(pub exec const #id : #cty), 1).trim());
+    let _ = writeln!(out, "{}", spec.trim_end());
+    let _ = writeln!(out, "    {{ {} }}", pretty(expr.to_token_stream(), 0).trim());
+    let _ = writeln!(out, "}}");
+    let _ = writeln!(out, "//vx-end fn {}", path);
+    let (nreq, nens) = count_clauses(spec);
+    ctx.report.push(format!(
+        "{{\"kind\":\"fn\",\"name\":{},\"file\":{},\"item\":{},\"closure\":null,\"src_lines\":[{},{}],\"src_hash\":\"{:016x}\",\"attrs_dropped\":{},\"rewrites\":{{\"associated_const_as_exec_const\":1}},\"clauses\":{{\"requires\":{},\"ensures\":{},\"invariants\":0}},\"novac\":true}}",
+        json_str(path), json_str(file), json_str(path),
+        c.const_token.span.start().line, c.semi_token.span.end().line,
+        fnv(&c.to_token_stream().to_string()), c.attrs.len(), nreq, nens
+    ));
 }
 
 fn emit_item(ctx: &mut Ctx, file: &str, name: &str, opts: &BTreeMap<String, String>, out: &mut String) {
@@ -1245,6 +1301,32 @@ fn process_text(ctx: &mut Ctx, tpl: &str, out: &mut String, depth: usize) {
                     emit_item(ctx, &words[1], &words[2], &opts, out);
                     i += 1;
                 }
+                "implconst" => {
+                    // //@ implconst <file> <Type>::<NAME>   followed by spec lines until //@ end
+                    if words.len() < 3 {
+                        die(&format!("line {}: //@ implconst <file> <Type::NAME>", i + 1));
+                    }
+                    let file = words[1].clone();
+                    let path = words[2].clone();
+                    i += 1;
+                    let mut spec = String::new();
+                    let mut closed = false;
+                    while i < lines.len() {
+                        let t2 = lines[i].trim_start();
+                        if t2.starts_with("//@") && t2[3..].trim() == "end" {
+                            closed = true;
+                            i += 1;
+                            break;
+                        }
+                        spec.push_str(lines[i]);
+                        spec.push('\n');
+                        i += 1;
+                    }
+                    if !closed {
+                        die("implconst block not closed with //@ end");
+                    }
+                    emit_implconst(ctx, &file, &path, &spec, out);
+                }
                 "fn" => {
                     if words.len() < 3 {
                         die(&format!("line {}: //@ fn <file> <path> [opts]", i + 1));
@@ -1275,6 +1357,7 @@ fn process_text(ctx: &mut Ctx, tpl: &str, out: &mut String, depth: usize) {
                         Spec,
                         Entry,
                         Loop(usize),
+                        After(usize),
                     }
                     let mut sec = Sec::Spec;
                     let mut closed = false;
@@ -1300,6 +1383,12 @@ fn process_text(ctx: &mut Ctx, tpl: &str, out: &mut String, depth: usize) {
                                     sec = Sec::Loop(k)
                                 }
                                 Some("spec") => sec = Sec::Spec,
+                                Some("after") => {
+                                    // //@ after "<substring of exactly one statement line>"
+                                    let pat = w2.get(1).cloned().unwrap_or_else(|| die("after needs a pattern"));
+                                    d.anchors.push((pat, String::new()));
+                                    sec = Sec::After(d.anchors.len() - 1)
+                                }
                                 Some("opt") => {
                                     for w in &w2[1..] {
                                         if let Some((k, v)) = w.split_once('=') {
@@ -1325,6 +1414,10 @@ fn process_text(ctx: &mut Ctx, tpl: &str, out: &mut String, depth: usize) {
                                     let e = d.loops.entry(k).or_default();
                                     e.push_str(l2);
                                     e.push('\n');
+                                }
+                                Sec::After(k) => {
+                                    d.anchors[k].1.push_str(l2);
+                                    d.anchors[k].1.push('\n');
                                 }
                             }
                         }
